@@ -669,6 +669,8 @@ static int ec_insert(char *loc, char *cmd, char *arg, char *txt)
 		return 1;
 	if (beg < 0)
 		beg = 0;
+	if (cmd[0] == 'c' && end == 0 && lbuf_len(xb))	/* 0c: no line to change */
+		return 1;
 	if (cmd[0] == 'a' && end > 0)	/* after the addressed line, if there is one */
 		beg++;
 	if (cmd[0] != 'c')
@@ -876,8 +878,8 @@ static int ec_exec(char *loc, char *cmd, char *arg, char *txt)
 		ex_print(NULL);
 		return cmd_exec(ecmd);
 	}
-	if (ex_region(loc, &beg, &end))
-		return 1;
+	if (ex_region(loc, &beg, &end) || (end == 0 && lbuf_len(xb)))
+		return 1;	/* 0!cmd: no line to filter */
 	text = lbuf_cp(xb, beg, end);
 	rep = cmd_pipe(ecmd, text, 1);
 	if (rep)
